@@ -28,7 +28,7 @@ def gen(rng, k):
     net = Net(r, nnodes=2, cap=cap, lossy=lossy, bw=r.choice([0, 5000, 200000, 800000, 50000000]),
               lat=r.choice([0, 1000000, 30000000, 500000000]))
     L = net.lines
-    total = r.choice([1, 1475, 1476, 2950, 4425, 10000, 30000, 100000]) if r.random() < 0.9 else 300000
+    total = r.choice([1, 1475, 1476, 2950, 4425, 10000, 30000]) if r.random() < 0.93 else r.choice([100000, 300000])
     L += ["M acc_new 1 1", "M tcp_open 1 1", "M tcp_bind 1 0 0 1337", "M listen 1 10", "M tcp_new 2 1", "M tcp_new 3 2",
           "M accept 1 2 0 10", "M tcp_connect 3 0 %d 1337 11" % A1]
     if r.random() < 0.5:
@@ -45,7 +45,7 @@ def gen(rng, k):
 
 
 def generate(rng, tier):
-    n = 150 if tier == "quick" else 3000
+    n = 60 if tier == "quick" else 3000
     return [("p%d" % k, gen(rng, k)) for k in range(n)]
 
 
